@@ -672,7 +672,7 @@ pub fn finish_check(
         _ => agg.states_total,
     };
     let base_evals = if agg.cases > 0 { agg.cases } else { agg.evaluations.max(cases_listed) };
-    let unreached: Vec<String> = crate::probes::expected(prop).iter().filter(|p| agg.probes.get(**p).copied().unwrap_or(0) == 0).map(|s| s.to_string()).collect();
+    let unreached: Vec<String> = crate::probes::expected(prop).iter().filter(|p| agg.probes.get(*p).copied().unwrap_or(0) == 0).cloned().collect();
     let ev = json!({
         "property_id": prop,
         "tier": tier,
@@ -729,8 +729,11 @@ pub fn finish_check(
             "bounds: <= 8 transactions, <= ~2300 items, dimension <= 130, <= 20 trees, <= 4 indexes"
         ]
     });
-    std::fs::create_dir_all("/verif/evidence").ok();
-    std::fs::write(format!("/verif/evidence/{prop}.json"), serde_json::to_string_pretty(&ev).unwrap()).unwrap();
+    // VERIF_EVIDENCE_DIR: only for the harness author's side runs (other seeds / tiers) that must not
+    // replace the committed evidence; the registered commands never set it
+    let evdir = std::env::var("VERIF_EVIDENCE_DIR").unwrap_or_else(|_| "/verif/evidence".to_string());
+    std::fs::create_dir_all(&evdir).ok();
+    std::fs::write(format!("{evdir}/{prop}.json"), serde_json::to_string_pretty(&ev).unwrap()).unwrap();
     println!(
         "property={prop} tier={tier} runs={} distinct_nontrivial={distinct} unevaluable={} violations={new_violations} known={} wall={wall:.1}s",
         agg.evaluations,
